@@ -479,10 +479,11 @@ Local Open Scope bool_scope.
 Definition Lf (k : kind) (v : Qc) : net QcF := @Leaf QcF k v.
 Definition SerQ (l : list (net QcF)) : net QcF := @Ser QcF l.
 Definition ParQ (l : list (net QcF)) : net QcF := @Par QcF l.
-Inductive obs := ONet (n : net QcF) | ONone | OErr | OAny.
+Inductive obs := ONet (n : net QcF) | ONone | OErr | OAny | OSome.
 Definition agree (r : res (option (net QcF))) (o : obs) : bool :=
   match r, o with
   | _, OAny => true
+  | Ok (Some _), OSome => true
   | Ok (Some a), ONet b => net_eqb a b
   | Ok None, ONone => true
   | Err, OErr => true
@@ -517,9 +518,8 @@ def case_item(i, c, r, tr):
     st = r.get('status')
     if st not in ('net', 'none', 'error'):
         return None, 'harness'
-    if st == 'net' and r.get('tree') is None:
-        return None, 'irrational-elements'
-    obs = {'net': lambda: 'ONet %s' % qtree(r['tree']), 'none': lambda: 'ONone', 'error': lambda: 'OErr'}[st]()
+    obs = {'net': lambda: ('ONet %s' % qtree(r['tree'])) if r.get('tree') is not None else 'OSome',
+           'none': lambda: 'ONone', 'error': lambda: 'OErr'}[st]()
     xs = '([%s] : list QcF)' % '; '.join(qc(x) for x in c['xs'])
     form = '"%s"%%string' % c['form']
     ts = rat_terms(c, r, tr)
@@ -594,7 +594,7 @@ def obligation_form(name):
 
 
 def main_key(c, what):
-    return '%s:%s:%s' % (what, c['form'], classify(c))
+    return '%s:%s:%s' % (what, 'transform' if c['kind'] == 'transform' else 'network', c['form'])
 
 
 # ---- main --------------------------------------------------------------------------------------
@@ -693,6 +693,8 @@ def run(tier='quick', replay=None):
                          if (i % 97 == 3 and st == 'net') else None)
             if r.get('oracle') == 'bad':
                 res.counterexamples.append({'case': c, 'lcapy': r, 'via': 'oracle'})
+            if r.get('sdep'):
+                res.counterexamples.append({'case': c, 'lcapy': r, 'via': 's-dependent-element'})
             if gen_ok:
                 it, note = case_item(i, c, r, tr)
                 res.count('corr_' + note)
@@ -739,6 +741,7 @@ def run(tier='quick', replay=None):
 
         # 4. decide
         seen = {}
+        res.counterexamples.sort(key=lambda ce: len(json.dumps(ce['case'])))
         for ce in res.counterexamples:
             c = ce['case']
             k = main_key(c, 'wrong-immittance')
@@ -746,6 +749,12 @@ def run(tier='quick', replay=None):
                 continue
             seen[k] = ce
             r = ce['lcapy']
+            if ce['via'] == 's-dependent-element':
+                k = main_key(c, 'unrealisable-element')
+                violations.append({'key': k, 'what': 'form %s returned a "network" with an element value that depends on s instead of an error' % c['form'],
+                                   'case': c, 'lcapy': r, 'via': ce['via'], 'found_input': True,
+                                   'replay': {'case': c}, 'how': './check C19 --replay <this file>'})
+                continue
             violations.append({'key': k, 'what': 'network returned by form %s does not have the requested immittance' % c['form'],
                                'case': c, 'lcapy': r, 'via': ce['via'], 'found_input': True,
                                'replay': {'case': c}, 'how': './check C19 --replay <this file>'})
